@@ -356,6 +356,13 @@ class KeyedSet(Generic[ItemType, KeyType], MutableSet, KeyedBase):  # pylint: di
         except TypeError:
             pass
 
+    def _from_iterable(self, it):  # pylint: disable=arguments-differ
+        return self._type(
+            it,
+            key=self._key,
+            enforce_item_equivalence=self.enforce_item_equivalence,
+        )
+
     # Magic methods
 
     def __eq__(self, other):
